@@ -125,6 +125,8 @@ def check_handler(chk, db, config):
 
 
 def run(chk, tier):
+    from ..rules import dims as _DM
+    _DM.check(chk, D.load("checks"), ["_linalg/blas"], floor=6)      # DIM: linalg index loops vs the extents the preconditions equate
     with open(SPEC) as f:
         table = json.load(f)["entries"]
     configs = ["checks", "safe"] if tier == "quick" else ["checks", "safe", "plain", "suite"]
